@@ -319,6 +319,14 @@ def _total_ordering(I, st, v):
     return False
 
 
+def _cmp_truth(I, st, r):
+    """the value of `a < b` / `a == b` is whatever the method returned (only `if` / `not` convert it); the model hands
+    comparison results on as truth values, which is the same thing only for bools"""
+    if isinstance(r, bool) or (is_z3(r) and z3.is_bool(r)):
+        return r
+    raise Unsupported("rich comparison method returned a non-bool value")
+
+
 def compare(I, st, op, a, b):
     """yield (st, python bool | z3 Bool | Exc)"""
     from . import npmodel
@@ -347,7 +355,7 @@ def compare(I, st, op, a, b):
                 elif _is_not_implemented(r):
                     raise Unsupported("__ne__ returned NotImplemented")
                 else:
-                    yield st1, I.truth(r, st1)
+                    yield st1, _cmp_truth(I, st1, r)
             return
         m = obj_has(I, st, a, "__eq__")
         if (m is None and obj_has(I, st, b, "__eq__") is not None) or _right_first(I, st, a, b, "__eq__"):
@@ -363,7 +371,7 @@ def compare(I, st, op, a, b):
                     # CPython then asks the other operand and finally falls back to identity
                     raise Unsupported("__eq__ returned NotImplemented")
                 else:
-                    t = I.truth(r, st1)
+                    t = _cmp_truth(I, st1, r)
                     yield st1, (t if op == "Eq" else znot(t))
             return
         r = eq_values(I, st, a, b)
@@ -389,7 +397,7 @@ def compare(I, st, op, a, b):
                     continue
                 if _is_not_implemented(r):
                     raise Unsupported("__lt__ returned NotImplemented under total_ordering")
-                for st2, isLt in I.branch(st1, I.truth(r, st1)):
+                for st2, isLt in I.branch(st1, _cmp_truth(I, st1, r)):
                     if op == "GtE":  # not (a < b)
                         yield st2, (not isLt)
                     elif op == "LtE":  # a < b or a == b
@@ -416,9 +424,9 @@ def compare(I, st, op, a, b):
                     if not isinstance(r2, Exc) and _is_not_implemented(r2):
                         yield st2, exc("TypeError", "'%s' not supported between %r and %r" % (op, a, b))
                     else:
-                        yield st2, (r2 if isinstance(r2, Exc) else I.truth(r2, st2))
+                        yield st2, (r2 if isinstance(r2, Exc) else _cmp_truth(I, st2, r2))
                 continue
-            yield st1, (r if isinstance(r, Exc) else I.truth(r, st1))
+            yield st1, (r if isinstance(r, Exc) else _cmp_truth(I, st1, r))
         return
     if mr is not None:
         for st1, r in I.call(mr, [b, a], {}, st):
@@ -427,7 +435,7 @@ def compare(I, st, op, a, b):
                     raise Unsupported("reflected comparison returned NotImplemented")
                 yield st1, exc("TypeError", "'%s' not supported between %r and %r" % (op, a, b))
                 continue
-            yield st1, (r if isinstance(r, Exc) else I.truth(r, st1))
+            yield st1, (r if isinstance(r, Exc) else _cmp_truth(I, st1, r))
         return
     if isinstance(a, tuple) and isinstance(b, tuple):
         yield st, tuple_order(I, st, op, list(a), list(b))
@@ -555,6 +563,12 @@ def contains(I, st, container, item):
         return
     if isinstance(container, Ref):
         e = st.get(container)
+        if isinstance(e, IterE):
+            raise Unsupported("`in` on an iterator (consumes it up to the first match)")
+        if ("lazy_src", container.id) in st.ghost:
+            from .loops import lazy_check
+
+            lazy_check(st, st.ghost[("lazy_src", container.id)])  # a dict view whose dict has changed since
         if e.kind in ("list", "deque"):
             # membership uses == (and identity); objects without __eq__ compare by identity
             parts = []
@@ -1130,6 +1144,18 @@ def iterate(I, st, v):
         return [(v.start + k, x) for k, x in enumerate(inner)]
     if isinstance(v, Ref):
         e = st.get(v)
+        if isinstance(e, IterE):
+            # a full traversal of an iterator exhausts it; traversing it AGAIN yields nothing in CPython - refused here, so
+            # that a model which walks its argument twice can never silently see the empty second pass
+            from .loops import lazy_note
+
+            if e.done:
+                raise Unsupported("an exhausted iterator / generator is traversed again")
+            lazy_note(st, v, e.items)
+            items = list(e.items)
+            e.items.clear()
+            e.done = True
+            return items
         if e.kind in ("list", "deque"):
             from .loops import lazy_note
 
